@@ -6,6 +6,13 @@ func directedJobs(prop, tier string, seed int64) []job {
 	return nil
 }
 
-func extraChecks(prop, tier string, seed int64, stats *Stats) {}
+func extraChecks(prop, tier string, seed int64, stats *Stats) {
+	want := func(p string) bool { return prop == "all" || prop == p }
+	if want("C18") {
+		st := NewStats()
+		staticC18(NewApp(), NewMon(st), seed, 300)
+		stats.Merge(st)
+	}
+}
 
 func cmdDigest(args []string) {}
